@@ -36,6 +36,8 @@ TRUSTED = ['hand-written model coq/Model/Validator.v tied to biom/cli/table_vali
            'HDF5 writer side (every file to_hdf5 writes validates) is checked by correspondence only',
            'h5py reading of the mutated file into the tree the model sees (harness/c15.py h5_tree)',
            'extraction (ExtrOcamlBasic only) + ocaml/driver_tail.ml, cross-checked against vm_compute on a sample']
+from . import regen_dyn as _regen_dyn
+regenerate = _regen_dyn.hook(TRUSTED, ['validator'])   # py2v_dyn: regenerate coq/Gen/ValidatorGen.v from the source first
 ASSUMPTIONS = ['JSON numbers are finite; float values are multiples of 1/64 (exact in the model)',
                'dates use ASCII digits (strptime also accepts other Unicode decimal digits)',
                'an uncaught exception of the validator counts as "not reported valid"']
